@@ -143,7 +143,7 @@ def op_args(op):
             names = [name_of(i) for i in op["names"]]
             ARGS[key] = {"names": names[0] if op.get("as_str") and len(names) == 1 else names}
         elif o == "addrows":
-            ARGS[key] = {"rows": list(op["rows"]), "perm": list(op.get("perm") or range(len(op["rows"])))}
+            ARGS[key] = {"other": [[i, r] for i, r in op["other"]]}
         else:
             ARGS[key] = {}
     return ARGS[key]
@@ -152,7 +152,8 @@ def op_args(op):
 def snapshot(args):
     out = {}
     for k, v in args.items():
-        out[k] = v.copy() if isinstance(v, numpy.ndarray) else (list(v) if isinstance(v, list) else v)
+        out[k] = v.copy() if isinstance(v, numpy.ndarray) else (
+            [list(e) if isinstance(e, list) else e for e in v] if isinstance(v, list) else v)
     return out
 
 
@@ -162,6 +163,9 @@ def same_args(a, b):
         if isinstance(x, numpy.ndarray) or isinstance(y, numpy.ndarray):
             if not (isinstance(x, numpy.ndarray) and isinstance(y, numpy.ndarray) and x.dtype == y.dtype
                     and numpy.array_equal(x, y)):
+                return False
+        elif isinstance(x, list) and isinstance(y, list):
+            if [list(e) if isinstance(e, (list, tuple)) else e for e in x] != [list(e) if isinstance(e, (list, tuple)) else e for e in y]:
                 return False
         elif x != y or type(x) is not type(y):
             return False
@@ -188,13 +192,13 @@ def apply_op(aln, op, case):
     if o == "addself":
         return aln + aln
     if o == "addrows":
-        # rows[i] belongs to the i-th name of aln; the right operand lists the names in its own (permuted) order
-        names = list(aln.names)
-        pairs = [(names[j], args["rows"][j]) for j in args["perm"] if j < len(names)]
-        if len(pairs) != len(args["rows"]):
-            pairs = list(zip(names, args["rows"]))
-        other = make_aligned_seqs(dict(pairs), moltype=aln.moltype, array_align=isinstance(aln, ArrayAlignment))
+        # the right operand is an alignment of its own: its named rows in its own order
+        other = make_aligned_seqs({name_of(i): r for i, r in args["other"]}, moltype=aln.moltype,
+                                  array_align=isinstance(aln, ArrayAlignment))
         return aln + other
+    if o == "rename":
+        mapping = {name_of(a): name_of(b) for a, b in op["map"]}
+        return aln.rename_seqs(lambda n: mapping.get(n, n))
     if o == "addslices":
         return aln[op["a"]:op["b"]] + aln[op["c"]:op["d"]]
     if o == "takepos":
@@ -243,6 +247,10 @@ def ro_values(aln):
         [[bool(x) for x in row] for row in numpy.asarray(aln.get_gap_array()).tolist()],
         [int(x) for x in numpy.asarray(aln.count_gaps_per_pos().array).tolist()],
         bool(aln.is_ragged()),
+        [int(x) for x in numpy.asarray(aln.count_gaps_per_seq().array).tolist()],
+        [int(x) for x in aln.variable_positions()],
+        [[id_of(n), int(aln.get_lengths()[n])] for n in aln.names],
+        [str(aln.get_seq(n)) for n in aln.names],
     ]
 
 
